@@ -240,7 +240,10 @@ def main(tier, seed):
     def one(c):
         d = os.path.join(base, c["name"])
         entry, cfgp, cli = build_inputs(d, c["backend"], c["settings"], c["kebab"], c.get("with_cb", False), c["attr_style"])
-        rc, o, e = toolrun.run_tool(c["backend"], entry, os.path.join(d, "out"), config_file=cfgp, configs=cli)
+        # every fourth case runs the backend under its legacy name (`kotlin2`, `nanobind2`, `js2` ..: the trailing 2 is stripped), which
+        # must select the same language-scoped keys (seed C17-j: the override lookup used the unstripped name)
+        run_as = c["backend"] + ("2" if sum(map(ord, c["name"])) % 4 == 0 else "")
+        rc, o, e = toolrun.run_tool(run_as, entry, os.path.join(d, "out"), config_file=cfgp, configs=cli)
         kind, det = toolrun.classify_tool(rc, e)
         out = os.path.join(d, "out")
         observed = None
